@@ -296,25 +296,33 @@ def recoveryRun (cfg : Cfg) (batch : Nat) (tip : BlockId) : Nat → Wallet → W
       | .ok w' => recoveryRun cfg batch tip fuel w'
 
 /-- What the (fake) backend sends for `Rescan(from syncedTo)`: the wallet transactions of every best-chain block
-    above the start, then `RescanFinished(tip)`. -/
-def rescanNtfns (C : Content) (tip : BlockId) (from_ : Nat) : List Ntfn :=
+    above the start … -/
+def rescanTxNtfns (C : Content) (tip : BlockId) (from_ : Nat) : List Ntfn :=
   ((blocksFrom tip (from_ + 1) (tip.length - from_)).map (fun b =>
       (C.txs b).map (fun t => Ntfn.relevantTx t (some (stampOf C b))))).flatten
-    ++ [.rescanFinished tip tip.length]
+
+/-- … then `RescanFinished(tip)`. -/
+def rescanNtfns (C : Content) (tip : BlockId) (from_ : Nat) : List Ntfn :=
+  rescanTxNtfns C tip from_ ++ [.rescanFinished tip tip.length]
 
 /-- `syncWithChain` of a freshly opened wallet (birthday block set) against a backend with best chain `tip`:
     the rollback loop, then recovery when `recW > 0`, then the rescan.  (Recovery used to run BEFORE the rollback
     loop and hid an offline reorg from it — found by this engine, repo-patches/fix-C15-startup-rollback-before-recovery.diff.)
+    `during` = notifications the backend queues after the rescan request was evaluated and before its
+    `RescanFinished` (blocks arriving meanwhile).
     `false` ⇒ `syncWithChain` returned an error and the wallet retries later (a failed rollback transaction leaves
     the database unchanged; completed recovery batches stay). -/
-def startup (cfg : Cfg) (recW batch : Nat) (w : Wallet) (tip : BlockId) : Wallet × Bool :=
+def startupDuring (cfg : Cfg) (recW batch : Nat) (w : Wallet) (tip : BlockId) (during : List Ntfn) : Wallet × Bool :=
   let w0 := { w with chainSynced := false }
   match startupRollback cfg w0 tip with
   | .error _ => (w0, false)
   | .ok w1 =>
     let (w2, ok) := if recW > 0 then recoveryRun cfg batch tip (tip.length + 1) w1 else (w1, true)
     if ok = false then (w2, false)
-    else (process cfg w2 (rescanNtfns cfg.C tip w2.syncedTo.height), true)
+    else (process cfg w2 (rescanTxNtfns cfg.C tip w2.syncedTo.height ++ during ++ [.rescanFinished tip tip.length]), true)
+
+def startup (cfg : Cfg) (recW batch : Nat) (w : Wallet) (tip : BlockId) : Wallet × Bool :=
+  startupDuring cfg recW batch w tip []
 
 /-- A wallet that has completed its first sync against a backend that only has the genesis block. -/
 def genesisWallet (C : Content) : Wallet :=
